@@ -821,7 +821,7 @@ def case(ctx):
         return len(g.anc(t)) - len(g.lh(t))
 
     subject = max(names, key=lambda nm: (score(nm), nm)) if rng.random() < 0.8 else rng.choice(names)
-    ctx.info = {"format": fmt, "subject": subject}
+    ctx.info = {"format": fmt, "subject": subject, "history_reading_tip_hooks": hooked}
     wt = WorkingTree.open(hist.trees[subject])
     b = wt.branch
 
